@@ -102,9 +102,7 @@ class Program:
                 if m == PKG or m.startswith(PKG + ".") or m == "ply" or m.startswith("ply."):
                     del sys.modules[m]
             for mod in self.trees:
-                if mod.endswith("cli"):
-                    continue
-                self.real[mod] = importlib.import_module(mod)
+                self.real[mod] = importlib.import_module(mod)     # cli included: importing it only defines functions
 
     def _index(self, mod, tree):
         self.funcs[mod], self.classes[mod], self.imports[mod] = {}, {}, {}
